@@ -16,6 +16,10 @@ P = {
   "Lean theorems over models of tag extraction and of the comment index (classify_once, tag_iff, splitKV_spec, others_spec for every line list and marker set; doc_correct / docOf_correct: for every layout of blank lines, comment groups and one- or multi-line declarations with or without trailing comments, every declaration gets exactly the tag extraction of the group ending directly above it and its own trailing comment, never the previous line's trailing comment — for the repaired index, via build_frame), tied to the code by ExtractCommentTags on random line lists vs. the model and an independent re-statement, and by rendering layouts to Go text (struct fields incl. multi-name, grouped/ungrouped type/const/var, line and block comments, detached groups, tag lines, go: prose), loading them with the real types.Load and comparing Doc/Comment of every declared name with the model and with the layout's own ground truth (random layouts plus the complete enumeration of ≤ 3 consecutive declarations × {none, doc, detached} × {trailing or not}).",
   "Trusted: Lean kernel; go/parser's attachment of Doc/Comment groups to declarations as the documented rule (a group ending on the line before a declaration is its Doc; a comment starting on a declaration's last line is its Comment; unattached groups are not visited by ast.Inspect); ast.CommentGroup.Text() as the source of lines (the harness uses payloads Text() returns unchanged); the `go:` filter of commentLinesFrom is part of the model (O11); default markers regenerated from the source.",
   "Lean 4 proof (frame lemma over the index, induction over the layout) + correspondence on the real loader + ground-truth oracle", "6 C12"),
+ "C13": (True,
+  "Lean theorems over models of the loader's table logic (tables_exact / tables_only_pkg: for every arrival order of types.Info.Defs the repaired table binds a name to exactly the package-scope object of that name, never a local declaration or a type parameter; methods_exact: grouping by the receiver's origin type makes MethodsOf(T, true) the declared methods and MethodsOf(T, false) those with value receivers, generic or not; register_ok: with dependencies registered first every import entry of every registered package is resolved, by induction on a height function over the acyclic import graph; sourceDir_correct, sourceDir_root, locate_correct, locate_none: path arithmetic of SourceDir and the order-free LocateInPackage), tied to the code by loading generated packages with the real types.Load and comparing the three tables, the import tables of random package DAGs listed in either root order, and MethodsOf on the complete enumeration of {plain, generic} × ≤ 3 methods × receiver kinds with the model; judged by the loader's own types.Package scope (pointer identity), Named.Method(i), packages' import lists and file directories — on the synthetic packages and on every package of the dependency closure of /repo (194 packages incl. std).",
+  "Trusted: Lean kernel; go/types' Defs, scopes and method sets and go/packages' package graph are inputs of the model (an independent type-check of the same source feeds it); abstract methods of interface types are not judged under MethodsOf; init and blank-named functions are set aside as the statement says; the builtin package unsafe has no syntax and therefore empty tables (O10; claimed for packages that have source files); filepath.Clean stays with the oracle.",
+  "Lean 4 proof (order-independence of last-writer-wins under a scope filter; induction over the import DAG) + correspondence on the real loader + scope oracle incl. /repo's closure", "6 C13"),
  "C15": (True,
   "Lean theorems over a model of ParseTypeRef / TypeRef.String / ParseRef / PkgImportPathAndExpose / rawNamer.processName (parse_print: every well-formed reference of any depth and width parses back to itself with the depth-counter scanner; splitRef_agree; rewrite_shape, rewrite_bound, rewrite_final_names: the namer's rewrite changes only package paths, registers exactly the foreign packages and every node carries the name any later extension of the table gives its package), tied to the code by a differential run against ParseTypeRef, ParseRef, PkgImportPathAndExpose and snippet.ID(string) rendered through a real writer (random trees, grammar enumeration, malformed strings for agreement only), with the tree the string was printed from as ground truth.",
   "Trusted: Lean kernel; references whose head has a package path (a TypeName always has a package) for the naming-system clause; the tracker's names themselves are C03's subject; the correspondence is a sample.",
